@@ -282,6 +282,17 @@ def proc_port_targets(base, processes, topology):
     return out
 
 
+class Notes(list):
+    """per-operation expectations; `own[i]` are the paths operation i itself names"""
+    def __init__(self):
+        super().__init__()
+        self.own = []
+
+    def add(self, note, own):
+        self.append(note)
+        self.own.append(list(own))
+
+
 def _seq(x):
     return list(x) if isinstance(x, (list, tuple)) else []
 
@@ -308,14 +319,14 @@ def named_paths(root, here, upd, ps_path, notes):
     for e in _seq(upd.get('_add')):
         if isinstance(e, dict) and isinstance(e.get('key'), str):
             out.append(here + (e['key'],))
-            notes.append(('add', here, e['key'], e.get('state'), e['key'] in node.inner,
-                          bool(node.subschema)))
+            notes.add(('add', here, e['key'], e.get('state'), e['key'] in node.inner,
+                       bool(node.subschema)), [here + (e['key'],)])
     for k in _seq(upd.get('_delete')):
         if isinstance(k, str):
             out.append(here + (k,))
-            notes.append(('delete', here, k))
+            notes.add(('delete', here, k), [here + (k,)])
         elif isinstance(k, tuple) and k and all(isinstance(x, str) for x in k):
-            notes.append(('delete-path', here, k))
+            notes.add(('delete-path', here, k), [])
     for m in _seq(upd.get('_move')):
         if not isinstance(m, dict):
             continue
@@ -334,9 +345,11 @@ def named_paths(root, here, upd, ps_path, notes):
             tpath = None
         if tpath is not None:
             out.append(tpath + src)
-            notes.append(('move', here + src, tpath + src, 'update' in m))
+            own = [here + src, tpath + src]
             if 'update' in m:
-                out.extend(named_paths(root, here + src, m['update'], ps_path, []))
+                own.extend(named_paths(root, here + src, m['update'], ps_path, Notes()))
+                out.extend(own[2:])
+            notes.add(('move', here + src, tpath + src, 'update' in m), own)
     for g in _seq(upd.get('_generate')):
         if not isinstance(g, dict):
             continue
@@ -344,13 +357,15 @@ def named_paths(root, here, upd, ps_path, notes):
         base = here + ((key,) if key else ())
         out.append(base)       # without a key the whole branch is (re)generated: sub-schemas and
         #                        defaults are applied to everything below it
-        out.extend(proc_port_targets(base, g.get('processes'), g.get('topology')))
-        out.extend(proc_port_targets(base, g.get('steps'), g.get('topology')))
-        notes.append(('generate', base, g))
+        own = [base] + proc_port_targets(base, g.get('processes'), g.get('topology')) \
+            + proc_port_targets(base, g.get('steps'), g.get('topology'))
+        out.extend(own[1:])
+        notes.add(('generate', base, g), own)
     dv = upd.get('_divide')
     if isinstance(dv, dict) and isinstance(dv.get('mother'), str):
         mother = here + (dv['mother'],)
         out.append(mother)
+        n0 = len(out) - 1
         keys = []
         try:
             mnode = root.get_path(mother)
@@ -366,7 +381,7 @@ def named_paths(root, here, upd, ps_path, notes):
                 topo = d.get('topology', mtopo)
                 out.extend(proc_port_targets(base, procs, topo))
                 out.extend(proc_port_targets(base, d.get('steps'), topo))
-        notes.append(('divide', here, dv['mother'], keys))
+        notes.add(('divide', here, dv['mother'], keys), out[n0:])
     for k, v in upd.items():
         if k in ('_add', '_delete', '_move', '_generate', '_divide'):
             continue
@@ -375,9 +390,10 @@ def named_paths(root, here, upd, ps_path, notes):
     return out
 
 
-def live_notes(notes):
-    """operations whose place is not removed by another part of the same update (a move or a
-    division of an ancestor, a deletion of an ancestor): only those are checked for their effect"""
+def live_notes(notes, named):
+    """Operations that can be judged on their own: their place is not removed by another part of the
+    same update (move/division/deletion of an ancestor) and no other part of the update names a
+    path overlapping theirs (e.g. a port of a generated process re-creating a moved store)."""
     removers = []
     for i, m in enumerate(notes):
         if m[0] == 'move':
@@ -396,6 +412,23 @@ def live_notes(notes):
             places = [n[1]]
         if any(j != i and is_prefix(r, p) for j, r in removers for p in places):
             continue
+        others = list(named)
+        for p in notes.own[i]:
+            if p in others:
+                others.remove(p)
+        if n[0] in ('add', 'delete'):
+            keyp = [n[1] + (n[2],)]
+        elif n[0] == 'move':
+            keyp = [n[1], n[2]]
+        elif n[0] == 'generate':
+            keyp = [n[1]]
+        elif n[0] == 'divide':
+            keyp = [n[1] + (n[2],)] + [n[1] + (k,) for k in n[3]]
+        else:
+            keyp = []
+        if n[0] != 'add' or not any(m[0] == 'delete' and m[1] == n[1] and m[2] == n[2] for m in notes):
+            if any(is_prefix(p, o) or is_prefix(o, p) for p in others for o in keyp):
+                continue
         out.append(n)
     return out
 
@@ -431,7 +464,7 @@ def check_step(before, root, here, upd, ps_path, named, notes, err, fails):
         return
     # ---- per-operation effects (an operation whose place is removed by an earlier part of the
     # same update — a move, a division — is not carried out on that place: skipped here)
-    for n in live_notes(notes):
+    for n in live_notes(notes, named):
         if n[0] == 'add':
             _, b, key, state, existed, has_sub = n
             if existed:
@@ -478,9 +511,11 @@ def check_step(before, root, here, upd, ps_path, named, notes, err, fails):
                 if after[dst][0] != before[src][0]:
                     fails.append(f'move: node at {dst} is not the node that was at {src}')
                 elif not has_update and after[dst][2] != before[src][2] and not any(
-                        (is_prefix(src, p) and p != src) or (is_prefix(dst, p) and p != dst)
+                        p not in (src, dst) and (is_prefix(src, p) or is_prefix(dst, p)
+                                                 or is_prefix(p, src) or is_prefix(p, dst))
                         for p in named):
-                    fails.append(f'move: contents changed while moving {src} to {dst}')
+                    fails.append(f'move: contents changed while moving {src} to {dst}: '
+                                 + tree_diff(before[src][2], after[dst][2]))
                 else:
                     for q, (ident, _, _) in before.items():
                         if is_prefix(src, q) and q != src:
@@ -522,7 +557,7 @@ def check_step(before, root, here, upd, ps_path, named, notes, err, fails):
             was = {k[-1] for k in before if len(k) == len(b) + 1 and is_prefix(b, k)}
             extra = now - was - set(keys)
             named_here = {p[len(b)] for p in named if len(p) > len(b) and is_prefix(b, p)}
-            if extra - named_here:
+            if extra - named_here and not any(is_prefix(p, b) for p in named):
                 fails.append(f'divide: unexpected new children {sorted(extra - named_here)} at {b}')
 
 
@@ -557,7 +592,7 @@ def run_impl(case):
         here = tuple(u['here'])
         ps_path = tuple(u['ps']) if u.get('ps') is not None else None
         before = snapshot(root)
-        notes = []
+        notes = Notes()
         try:
             node = root.get_path(here)
             ps = root.get_path(ps_path) if ps_path is not None else None
@@ -581,15 +616,15 @@ def run_impl(case):
             break
         obs['steps'].append({'ok': {'tree': dump(root), 'report': enc_report(r)}})
         check_step(before, root, here, upd, ps_path, named, notes, False, fails)
-        check_report(r, notes, fails)
+        check_report(r, notes, fails, named)
     return {'obs': obs, 'fails': fails}
 
 
-def check_report(r, notes, fails):
+def check_report(r, notes, fails, named=()):
     if r is None or all(x is None for x in r):
         return
     dels = [tuple(d) for d in (r[4] or [])]
-    for n in live_notes(notes):
+    for n in live_notes(notes, named):
         if n[0] == 'delete' and n[1] + (n[2],) not in dels:
             fails.append(f'report: deletion of {n[1] + (n[2],)} not reported')
         if n[0] == 'move' and n[1] not in dels:
@@ -645,20 +680,27 @@ def run_engine(case, procs, processes, steps, flow, topology, state):
         i = state_box['i']
         state_box['i'] += 1
         before = snapshot(root)
-        notes = []
+        notes = Notes()
         named = named_paths(root, (), update, dpath, notes)
         last.pop('report', None)
         try:
             r = orig(update, st)
         except Exception as e:  # noqa
+            state_box['stop'] = True
+            if 'report' in last:
+                # Store.apply_update completed; the Engine's own bookkeeping raised afterwards
+                obs['steps'].append({'ok': {'tree': dump(root), 'report': enc_report(last['report'])}})
+                check_step(before, root, (), update, dpath, named, notes, False, fails)
+                check_report(last['report'], notes, fails, named)
+                obs['engine_stopped'] = exc_name(e)
+                raise
             obs['steps'].append({'err': exc_name(e)})
             check_step(before, root, (), update, dpath, named, notes, True, fails)
-            state_box['stop'] = True
             raise
         obs['steps'].append({'ok': {'tree': dump(root), 'report': enc_report(last.get('report'))}})
         check_step(before, root, (), update, dpath, named, notes, False, fails)
         if 'report' in last:
-            check_report(last['report'], notes, fails)
+            check_report(last['report'], notes, fails, named)
         return r
     eng.apply_update = wrapped
     dt = drv['timestep']
